@@ -343,7 +343,7 @@ SILENT_EV = {"", "gl", "new", "del"}
 
 
 def tlc_behaviours(mc_tla, cfg, num, depth, seed, workdir, hook=False):
-    """TLC -simulate on the L2 model: returns [(params string, [(thread, kind) per script-consuming step], [thread per logged step])]"""
+    """TLC -simulate on the L2 model: returns [(params string, [(thread, kind) per script-consuming step], [(thread, kind) per logged step])]"""
     import glob, os, shutil, subprocess, vlib
     shutil.rmtree(workdir, ignore_errors=True)
     os.makedirs(workdir)
@@ -367,7 +367,7 @@ def tlc_behaviours(mc_tla, cfg, num, depth, seed, workdir, hook=False):
             if e["k"] not in SILENT_EV:
                 steps.append((e["t"], e["k"]))
             if e["k"] not in SILENT_EV or (hook and e["k"] == "gl"):
-                logged.append(e["t"])
+                logged.append((e["t"], e["k"]))
         out.append((params_of(c["kind"], c["head"], c["keys"], c["pre"], c["prog"]), steps, logged))
     shutil.rmtree(workdir, ignore_errors=True)
     return out
